@@ -93,6 +93,7 @@ class FamilyRun:
         self.lines = lines
         self.file = os.path.join(ctx.dir, name + ".txt")
         open(self.file, "w").write("\n".join(lines) + "\n")
+        self.cap = cap
         self.impl, self.raw = corr.run_harness(self.file, len(lines), timeout, cap=cap)
         self.rawfile = os.path.join(ctx.dir, name + ".harness.out")
         open(self.rawfile, "w").write(self.raw)
@@ -113,7 +114,7 @@ class FamilyRun:
             self.parsed[i] = parse_program_output(pr["lines"])
 
     def whole_run_mismatches(self):
-        out, code, err = corr.run_driver("run", self.file)
+        out, code, err = corr.run_driver("run", self.file, cap=self.cap)
         if code != 0:
             return [{"what": "driver failed", "detail": err[:500]}]
         mprogs = corr.split_progs(out)
@@ -211,8 +212,8 @@ def impl_keys(parsed):
     return keys, (failure_key(run, its[-1]["ops"]) if failed and its else "ok")
 
 
-def driver_keys(mode, file):
-    out, code, err = corr.run_driver(mode, file)
+def driver_keys(mode, file, cap=30000):
+    out, code, err = corr.run_driver(mode, file, cap=cap)
     if code != 0:
         raise RuntimeError("driver " + mode + " failed: " + err[:300])
     res = {}
@@ -301,12 +302,20 @@ class Known:
         return out
 
 
+def oracle_modes(ref_mode):
+    """-> (lower bound driver mode, upper bound driver mode)"""
+    if isinstance(ref_mode, tuple):
+        return ref_mode
+    return ("ref", "refw") if ref_mode == "refw" else ("ref", "ref")
+
+
 def oracle_compare(ctx, fam, known, ref_mode="ref"):
     """For every program of the family: implementation outcome set vs R.
     ref_mode "ref": R_sc is both bounds; "refw": R_sc lower bound, R_weak upper bound.
     Returns (violations, nknown, stats)."""
-    rk = driver_keys("ref", fam.file)
-    wk = driver_keys("refw", fam.file) if ref_mode == "refw" else rk
+    lo, up = oracle_modes(ref_mode)
+    rk = driver_keys(lo, fam.file)
+    wk = driver_keys(up, fam.file) if up != lo else rk
     violations = []
     nknown = 0
     ndev_progs = 0
@@ -489,8 +498,9 @@ class OutcomeCheck:
                 res["broken"].append(
                     f"correspondence L vs implementation ({name} family): program `{m.get('prog', '?')}` iteration {m.get('iteration')}: impl `{str(m.get('impl'))[:160]}` model `{str(m.get('model'))[:160]}`")
                 # search: programs whose behaviour the model does not reproduce
-                rk = driver_keys("ref", fam.file)
-                wk = driver_keys("refw", fam.file) if self.ref_mode == "refw" else rk
+                lo, up = oracle_modes(self.ref_mode)
+                rk = driver_keys(lo, fam.file)
+                wk = driver_keys(up, fam.file) if up != lo else rk
                 mk_ = driver_keys("keys", fam.file)
                 for m in mm:
                     i = m.get("index")
@@ -544,13 +554,15 @@ class OutcomeCheck:
             f = os.path.join(ctx.dir, "replay.txt")
             open(f, "w").write(v["prog"] + "\n")
             fam = FamilyRun(ctx, [v["prog"]], "replay", cap=self.cap)
-            rk = driver_keys("ref", fam.file)
-            wk = driver_keys("refw", fam.file)
+            lo, up = oracle_modes(self.ref_mode)
+            rk = driver_keys(lo, fam.file)
+            wk = driver_keys(up, fam.file)
             for i, p in fam.parsed.items():
                 ik, ifinal = impl_keys(p)
                 print("implementation outcomes:", sorted(ik))
                 print("reference outcomes (SC):", sorted(rk[i]["keys"]))
-                print("deviations             :", oracle_deviations(ik, ifinal, rk[i]["keys"], wk[i]["keys"] if self.ref_mode == "refw" else None))
+                print("reference outcomes (up):", sorted(wk[i]["keys"]))
+                print("deviations             :", oracle_deviations(ik, ifinal, rk[i]["keys"], wk[i]["keys"]))
         ctx.cleanup()
         return 0
 
@@ -1287,8 +1299,38 @@ class C16:
         return 0
 
 
+
+class C02(OutcomeCheck):
+    kinds = ("missing",)
+    cap = 30000
+    ref_mode = ("rc11s", "rc11w")
+    technique = "executable RC11 (Coq, validated on the published litmus verdicts) as lower-bound oracle + whole-run correspondence of the view-based atomic model; fence/clock lemmas proved"
+    rule = "F-litmus: SB, MP, LB, S, R, CoRR/CoWR/CoRW, 2+2W, WRC, RWC, IRIW, RMW and CAS shapes, release sequences x ordering assignments x fence insertions (2-thread shapes exhaustively in the thorough tier) + seeded random atomic programs"
+    level_text = ("The statement 'every RC11-consistent outcome with acyclic po+rf is explored (fewer stores than the history)' is compared against RC11.v, an executable transcription of RC11 "
+                  "(strong instance: SeqCst accesses are SC) that enumerates all consistent outcomes of each litmus program; a missing outcome is a violation (over-synchronisation). "
+                  "Proved: causality transfer lemmas for stores/loads/RMWs/fences (SyncFacts), vector-clock lattice (VVFacts); the fence_acq over-synchronisation found this way was repaired (fixed entry). "
+                  "Completeness of loom's view machine w.r.t. RC11 for all programs is not proved.")
+    level_note = "partial: RC11 completeness is oracle-checked on the litmus core; RC11.v is trusted as the specification (validated by 77 litmus Examples)"
+    det_family = lambda self, ctx: gen.fam_litmus_core(ctx.tier)
+    rnd_family = rnd("c02r", "AF", nq=100, nt=1000, nthreads=(2, 3), maxops=3)
+
+
+class C03(OutcomeCheck):
+    kinds = ("forbidden",)
+    cap = 30000
+    ref_mode = ("rc11s", "rc11w")
+    technique = "executable RC11 (weak instance: SeqCst accesses demoted, C++20 release sequences) as upper-bound oracle + whole-run correspondence; refutation witnesses for the listed coherence/atomicity findings"
+    rule = C02.rule
+    level_text = ("Every outcome of every explored iteration of the litmus core must be allowed by the weakest documented model (RC11.v weak instance: SeqCst accesses behave as acquire/release as loom's "
+                  "README says, SC fences kept, C++20 release sequences). Forbidden outcomes are violations; the ones caused by the listed modification-order defect are known findings with their exact inputs. "
+                  "Proved: release/acquire, RMW release sequences and fences transfer at least the clocks C11 demands (SyncFacts atomic_handover, atomic_rmw_release_sequence).")
+    level_note = "partial: consistency of all explored executions is oracle-checked on the litmus core"
+    det_family = lambda self, ctx: gen.fam_litmus_core(ctx.tier)
+    rnd_family = rnd("c03r", "AF", nq=100, nt=1000, nthreads=(2, 3), maxops=3)
+
+
 HOOK_COMMITS = ["8f72140"]
 FIX_COMMITS = ["4a97b3f", "e9415b5", "1d4f62f", "36c0d26", "7942235", "13413be", "756d098"]
 NOT_CLAIMED = {}
 REGISTRY = {"C14": C14(), "C01": C01(), "C05": C05(), "C07": C07(), "C08": C08(), "C09": C09(),
-            "C10": C10(), "C11": C11(), "C18": C18(), "C12": C12(), "C15": C15(), "C19": C19(), "C13": C13(), "C06": C06(), "C16": C16()}
+            "C10": C10(), "C11": C11(), "C18": C18(), "C12": C12(), "C15": C15(), "C19": C19(), "C13": C13(), "C06": C06(), "C16": C16(), "C02": C02(), "C03": C03()}
